@@ -1,16 +1,16 @@
 SPECIFICATION Spec
 CONSTANTS
-  Tree = {0, 1, 2, 9}
-  Relays = {1, 2}
+  Tree = {0, 1, 9}
+  Relays = {}
   NoMc = {}
-  Types = {1}
-  Lens = {1}
+  Types = {65}
+  Lens = {2}
   FragLen = 1
   MaxWrites = 1
-  MaxLoss = 0
+  MaxLoss = 1
   Concurrent = FALSE
   Redeliver = FALSE
-  FreeTimeout = FALSE
-INVARIANT C05_AtMostOnce
+  FreeTimeout = TRUE
+INVARIANT TrueMeansWholeMessageArrived
 PROPERTY NoEarlyFail
 CHECK_DEADLOCK FALSE
